@@ -365,7 +365,12 @@ def plan(tier, seed):
                ("script", dict(skeleton="T9", script=[dict(k="link", obj="up", attr="usage_journey", target="uj_alt"), num("step_alt", "user_time_spent")])),
                ("script", dict(skeleton="T9", script=[dict(k="list_op", obj="uj", attr="uj_steps", op="append", args=["step3"]), num("job3", "request_duration")])),
                ("script", dict(skeleton="T9", script=[dict(k="group", edits=[num("job", "data_transferred"), dict(k="link", obj="job", attr="server", target="srv_alt")])])),
-               ("script", dict(skeleton="T9", script=[num("job", "data_transferred"), num("job2", "data_transferred")]))]
+               ("script", dict(skeleton="T9", script=[num("job", "data_transferred"), num("job2", "data_transferred")])),
+               # one update, two structural changes: the second re-points an object the first has just put in the chain
+               ("script", dict(skeleton="T9", script=[dict(k="group", edits=[dict(k="list_assign", obj="step2", attr="jobs", names=["job2", "job"]),
+                                                                              dict(k="link", obj="job", attr="server", target="srv_alt")])])),
+               ("script", dict(skeleton="T9", script=[dict(k="group", edits=[dict(k="list_assign", obj="up", attr="devices", names=["dev_alt"]),
+                                                                              dict(k="link", obj="job", attr="server", target="srv_alt")])]))]
     # longer link histories: there-and-back-and-there again, and two objects leaving a shared target in turn
     L_ = lambda o, a, t: dict(k="link", obj=o, attr=a, target=t)  # noqa
     histories = [("script", dict(skeleton="T9", script=[L_("job", "server", "srv_alt"), L_("job", "server", "srv"), L_("job", "server", "srv_alt")])),
